@@ -63,7 +63,7 @@ class Ctx:
         self.coverage = {}
         self.assumptions = []
         self.level = "model_checking"
-        self.findings = [f for f in load_findings() if f.get("property") == prop]
+        self.findings = [f for f in load_findings() if f.get("property") == prop or prop in f.get("also_seen_by", [])]
         self._tmp = []
 
     @property
